@@ -9,6 +9,7 @@ mod c12;
 mod c14;
 mod c15;
 mod c16;
+mod c18;
 mod c19;
 mod c20;
 mod lang;
@@ -34,6 +35,7 @@ fn dispatch(case: &Sexp) -> Option<Sexp> {
         "type-codec" | "type-json" | "scheme-json" | "scheme-roundtrip" | "ctype-build" | "ctype-decode" => {
             c15::run(head, args)
         }
+        "threads" => c18::run(head, args),
         "panic-prog" | "panic-2threads" => c19::run(head, args, case),
         "ffi-history" | "ffi-2threads" | "cstring-history" => c20::run(head, args),
         "exec" => lang::run_exec(args),
@@ -64,6 +66,10 @@ fn main() {
     }
     if argv.len() == 3 && argv[1] == "--c19-install-race" {
         c19::install_race(argv[2].parse().unwrap_or(2));
+    }
+    // C18: `wfh --c18-fresh T` runs one case (stdin) whose first use of the engine is raced by T threads.
+    if argv.len() == 3 && argv[1] == "--c18-fresh" {
+        c18::fresh_main(argv[2].parse().unwrap_or(2));
     }
     // Silent hook; the first C19 case replaces it by an equally silent sentinel hook followed by
     // wirefilter's panic catcher hook (c19::install_hooks), for the rest of the process.
